@@ -350,6 +350,33 @@ def dynamic(ctx, state_unfixed, record=True):
                              "first": r.get("first"),
                              "explain": "a lookup of >= 512 results delivered nil / foreign / missing elements or panicked while "
                                         "another large lookup ran at the same time (read-only graph)"})
+    # 3e. CONSTRUCT / DECONSTRUCT into ?dst (60 rows, bulk size 2) while another goroutine drops / re-creates ?dst
+    #     (gated rounds: the DROP lands exactly between graph resolution and the first bulk): every statement returns
+    rows, _ = hconc(["-mode", "construct", "-n", "20" if quick else "400", "-seed", seed])
+    r = rows[-1]
+    meas["construct"] = {k: r.get(k) for k in ("result", "rounds", "rows", "bulk_size", "outcomes", "gated_returned_error",
+                                               "gated_returned_ok", "deadlock_confirmed")}
+    if r.get("result") == "hang":
+        problems.append({"kind": "statements-deadlock", "where": "construct vs DROP GRAPH of the output graph",
+                         "deadlock_confirmed": r.get("deadlock_confirmed"), "why": r.get("why"),
+                         "goroutines": str(r.get("goroutines"))[:2500],
+                         "explain": "a CONSTRUCT/DECONSTRUCT whose output graph is dropped by a concurrent statement never returns"})
+    elif r.get("result") != "crashed" and any(k.endswith(("panic", "parse", "plan")) for k in (r.get("outcomes") or {})):
+        problems.append({"kind": "construct-under-concurrent-drop", "detail": meas["construct"]})
+    # 3f. long RemoveTriples batches sharing a pair key (S+P / P+O / S+O) vs remove-last + add-same-pair-key by another
+    #     goroutine, then the quiescent audit: every pair lookup contains every triple the scan lists
+    rows, _ = hconc(["-mode", "pairidx", "-n", "300" if quick else "6000", "-seed", seed])
+    r = rows[-1]
+    meas["pairidx"] = {k: r.get(k) for k in ("result", "rounds", "batch_len", "interleavings_run", "rounds_with_index_holes",
+                                             "rounds_with_wrong_contents")}
+    if r.get("result") == "hang":
+        problems.append({"kind": "hang-or-deadlock", "where": "pairidx", "deadlock_confirmed": r.get("deadlock_confirmed"),
+                         "goroutines": str(r.get("goroutines"))[:2500]})
+    elif r.get("result") != "crashed" and (r.get("rounds_with_index_holes") or r.get("rounds_with_wrong_contents")):
+        problems.append({"kind": "pair-index-loses-stored-triples", "detail": meas["pairidx"], "first": r.get("first_missing"),
+                         "explain": "after concurrent RemoveTriples / AddTriples on one pair key, a triple that Triples() and Exist "
+                                    "report is missing from the S+P / P+O / S+O lookups: no serial order of the single-triple "
+                                    "updates gives that state"})
     rows, _ = hconc(["-mode", "replay"])
     rep = rows[-1]
     meas["replay"] = {k: rep.get(k) for k in ("reproduced", "b_error", "a_error", "b_closed", "b_equals_a", "options_after")}
@@ -380,7 +407,8 @@ def fill_cov(ctx, meas, fx):
     stress_ops = sum((s.get("ops") or 0) for s in meas.get("stress", []))
     ctx.cov["evaluations"] = len(lin_rows) + stress_ops + (meas.get("sharedlo", {}).get("calls") or 0) + \
         (meas.get("selftest", {}).get("ops") or 0) + (meas.get("batch", {}).get("reads") or 0) + \
-        sum((x.get("statements") or 0) for x in meas.get("stmt", [])) + sum((x.get("calls") or 0) for x in meas.get("sized", []))
+        sum((x.get("statements") or 0) for x in meas.get("stmt", [])) + sum((x.get("calls") or 0) for x in meas.get("sized", [])) + \
+        (meas.get("construct", {}).get("rounds") or 0) + (meas.get("pairidx", {}).get("rounds") or 0)
     ctx.cov["distinct_nontrivial"] = len(seen)
     ctx.cov["rule"] = ("evaluations = recorded concurrent histories (lin rounds) + stress operations under the race detector + "
                        "shared-options calls + sequential self-test operations + batch-probe reads + concurrently executed BQL statements + sized lookups; distinct_nontrivial counts lin histories only: "
@@ -398,7 +426,7 @@ def fill_cov(ctx, meas, fx):
                       "nonempty_lookups": sum(r.get("nonempty_lookups", 0) for r in lin_rows),
                       "error_classes": merge_counts(r.get("errors") or {} for r in lin_rows),
                       "summaries": meas.get("lin_summaries")}
-    for k in ("selftest", "stress", "sharedlo", "batch", "stmt", "sized", "replay", "replay_writer"):
+    for k in ("selftest", "stress", "sharedlo", "batch", "stmt", "sized", "construct", "pairidx", "replay", "replay_writer"):
         ctx.cov[k] = meas.get(k)
     ctx.cov["generated_table"] = fx
     ctx.cov["checker_cmd"] = ("work/bin/genlocks -o coq/Conc/Gen/LockFactsGen.v (cwd=/repo); coqc -Q coq/Conc BWConc "
